@@ -1244,6 +1244,15 @@ func (d *Driver) Exec(opName string, a M) M {
 				d.Store.Unlock()
 			}
 		}
+	case "Withdraw":
+		// environment: the administrator removes a grant from the client's registration (tokens issued before stay where they are)
+		out["class"] = "noop"
+		d.Store.Lock()
+		if c, ok := d.Store.Clients[S(a, "client")]; ok {
+			c.Grants = slices.DeleteFunc(slices.Clone(c.Grants), func(g string) bool { return g == S(a, "grant") })
+			out["class"] = "ok"
+		}
+		d.Store.Unlock()
 	case "RotateKey":
 		// environment: the provider's signing key is replaced (same algorithm); keepKid: the new key reuses the key id
 		d.Store.Lock()
